@@ -29,3 +29,6 @@ pub fn isize_to_usize_expect(x: isize, msg: &str) -> (r: usize)
     requires x >= 0,
     ensures r == x,
 { x.try_into().expect(msg) }
+pub fn range_eq(a: &Range<usize>, b: &Range<usize>) -> (r: bool)
+    ensures r == (*a == *b),
+{ a.start == b.start && a.end == b.end }
